@@ -120,3 +120,40 @@ package datastore
 //@   ensures !old(has(m.uuidToVersion, uuid)) ==> result0 == old(m.versionID) && m.versionID == old(m.versionID) + 1
 //@   ensures !old(has(m.uuidToVersion, uuid)) && save ==> has(m.versionToUUID, result0) && m.versionToUUID[result0] == uuid && m.uuidToVersion[uuid] == result0
 //@   ensures !old(has(m.uuidToVersion, uuid)) && !m.readOnly && result1 == nil ==> pVer == m.versionID
+
+// ---- versioned reads (C01): every successful read goes through the DAG resolver at the
+// context's own version ----
+// kvVersions.FindMatch / repoManager.findMatch: the ancestor walk itself is covered by the bounded
+// stand-in /verif/bounded/C01 (all DAGs up to 5 nodes); here only its frame is assumed.
+
+//@ func kvVersions.FindMatch
+//@   prop C01
+//@   trusted
+//@   modifies kvv[*]
+//@   ensures result2 == nil && result0 != nil ==> has(kvv, result1) && kvv[result1].kv == result0 && old(kvv[result1].kv) == result0
+//@   ensures forall v dvid.VersionID :: has(kvv, v) == old(has(kvv, v))
+
+//@ func VersionedCtx.VersionedKeyValue
+//@   prop C01 C05
+//@   requires vctx != nil && vctx.DataContext != nil
+//@   requires forall j int :: 0 <= j && j < len(values) ==> values[j] != nil && len(values[j].K) >= 1
+//@   modifies nothing
+//@   ghost resolved *storage.KeyValue = nil
+//@   ghost viaResolver bool = false
+//@   ghostset at "return kv, err": resolved = kv
+//@   ghostset at "return kv, err": viaResolver = true
+//@   ensures result1 == nil ==> viaResolver && result0 == resolved
+
+//@ func VersionedCtx.GetBestKeyVersion
+//@   prop C01
+//@   requires vctx != nil && vctx.DataContext != nil
+//@   requires forall j int :: 0 <= j && j < len(keys) ==> len(keys[j]) >= 1
+//@   modifies nothing
+//@   ghost resolved *storage.KeyValue = nil
+//@   ghost viaResolver bool = false
+//@   ghostset at "if kv == nil {": resolved = kv
+//@   ghostset at "if kv == nil {": viaResolver = true
+//@   ensures len(keys) == 0 ==> result0 == nil && result1 == nil
+//@   ensures len(keys) > 0 && result1 == nil ==> viaResolver
+//@   ensures len(keys) > 0 && result1 == nil && result0 != nil ==> resolved != nil && sameslice(result0, resolved.K)
+//@   ensures len(keys) > 0 && result1 == nil && resolved == nil ==> result0 == nil
